@@ -1714,6 +1714,188 @@ def wrapper_suite(chk: Check) -> None:
 
 
 
+# ------------------------------------------------------------------------------ registry validation
+_REG: dict = {}
+REG_ERRORS = {"noGroups": "No network groups", "notRegistered": "could not be found in the registry",
+              "noPolicy": "registered as a policy", "hpMissing": "was found in the mutations configuration"}
+
+
+def reg_class():
+    """toy algorithm whose `__init__` is driven by a spec: networks net0.., groups, optimizers (explicit names, so that
+    shapes the library does not validate can be registered), hyper-parameter names.  The object is stashed before the
+    metaclass runs `_registry_init`, so the registry of a REJECTED constructor can be read as well."""
+    if "cls" in _REG:
+        return _REG["cls"]
+    import torch.optim as optim
+    from agilerl.algorithms.core import RLAlgorithm
+    from agilerl.algorithms.core.registry import NetworkGroup
+    from agilerl.algorithms.core.wrappers import OptimizerWrapper
+    from agilerl.modules.mlp import EvolvableMLP
+
+    class RegAlgo(RLAlgorithm):
+        def __init__(self, observation_space, action_space, spec=None, hp_config=None):
+            super().__init__(observation_space, action_space, index=0, hp_config=hp_config, device="cpu", name="RegAlgo")
+            _REG["last"] = self
+            self.lr = 0.001
+            self.batch_size = 8
+            for k in range(spec["n"]):
+                setattr(self, f"net{k}", EvolvableMLP(4, 2, hidden_size=[8], device="cpu"))
+            for name, nets, lr_name in spec["opts"]:
+                setattr(self, name, OptimizerWrapper(optim.Adam, networks=[getattr(self, f"net{k}") for k in nets], lr=self.lr,
+                                                     network_names=[f"net{k}" for k in nets], lr_name=lr_name))
+            for ev, sh, pol in spec["groups"]:
+                shared = None if sh is None else [getattr(self, f"net{k}") for k in sh]
+                self.register_network_group(NetworkGroup(eval=getattr(self, f"net{ev}"), shared=shared, policy=pol))
+
+        def get_action(self, *a, **k):
+            return None
+
+        def learn(self, *a, **k):
+            return 0.0
+
+        def test(self, *a, **k):
+            return 0.0
+
+    _REG["cls"] = RegAlgo
+    return RegAlgo
+
+
+def reg_build(spec: dict):
+    """-> (verdict, message, registry-as-data read from the live object)"""
+    from gymnasium import spaces
+    from agilerl.algorithms.core.registry import HyperparameterConfig, RLParameter
+    hp = HyperparameterConfig(**{h: RLParameter(min=1e-6, max=1e-1) for h in spec["hps"]})
+    _REG.pop("last", None)
+    verdict, msg = "accepted", ""
+    try:
+        with warnings.catch_warnings():
+            warnings.simplefilter("ignore")
+            reg_class()(spaces.Box(-1, 1, (4,), dtype=np.float32), spaces.Box(-1, 1, (2,), dtype=np.float32), spec=spec, hp_config=hp)
+    except AttributeError as e:
+        verdict, msg = "AttributeError", str(e)
+    a = _REG.get("last")
+    if a is None:
+        raise InfraError("registry suite: the toy algorithm was not constructed")
+    r = a.registry
+    data = {"groups": [[g.eval, None if g.shared is None else list(g.shared if isinstance(g.shared, list) else [g.shared]),
+                        bool(g.policy)] for g in r.groups],
+            "opts": [[o.name, list(o.networks), o.lr] for o in r.optimizers],
+            "evolvable": list(a.evolvable_attributes().keys()),
+            "hps": list(r.hp_config.names()) if r.hp_config is not None else [],
+            "attrs": [h for h in (list(r.hp_config.names()) if r.hp_config is not None else []) if hasattr(a, h)]}
+    live = {"policy": r.policy, "all_registered": sorted(r.all_registered()), "optimizer_networks": dict(r.optimizer_networks)}
+    return verdict, msg, data, live
+
+
+def reg_model(d: dict):
+    """Coherence.registryCheck / RegData.registered / RegData.policy on the data read from the live object"""
+    registered = [g[0] for g in d["groups"]] + [s for g in d["groups"] for s in (g[1] or [])] + [o[0] for o in d["opts"]]
+    pol = next((g[0] for g in d["groups"] if g[2]), None)
+    if not d["groups"]:
+        err = "noGroups"
+    elif not all(a in registered for a in d["evolvable"]):
+        err = "notRegistered"
+    elif not any(g[2] for g in d["groups"]):
+        err = "noPolicy"
+    elif not all(h in d["attrs"] for h in d["hps"]):
+        err = "hpMissing"
+    else:
+        err = None
+    return err, registered, pol
+
+
+def reg_specs(rng: random.Random, quick: bool) -> list:
+    base = {"n": 3, "groups": [[0, [1], True], [2, None, False]], "opts": [["optimizer", [0], "lr"], ["opt_b", [2], "lr"]], "hps": ["lr"]}
+    out = [dict(base, tag="well-formed"),
+           dict(base, groups=[], tag="no-groups"),
+           dict(base, groups=[[0, [1], True]], tag="net-unregistered"),
+           dict(base, groups=[[0, [1], False], [2, None, False]], tag="no-policy"),
+           dict(base, hps=["lr", "ghost"], tag="hp-missing"),
+           dict(base, groups=[[0, [1], True], [2, None, True]], tag="two-policies"),
+           dict(base, opts=[["optimizer", [1], "lr"], ["opt_b", [2], "lr"]], tag="opt-over-shared"),
+           dict(base, groups=[[0, [1], True], [2, [1], False]], tag="shared-twice"),
+           dict(base, groups=[[0, [1, 0], True], [2, None, False]], tag="eval-and-shared"),
+           dict(base, opts=[["optimizer", [0], "no_such_lr"], ["opt_b", [2], "lr"]], tag="lr-missing"),
+           dict(base, opts=[], tag="no-optimizers")]
+    for _ in range(6 if quick else 40):
+        n = rng.randint(1, 4)
+        groups = []
+        for k in rng.sample(range(n), rng.randint(0, n)):
+            sh = rng.sample(range(n), rng.randint(0, 2)) if n > 1 and rng.random() < 0.5 else None
+            groups.append([k, sh or None, rng.random() < 0.5])
+        opts = [[f"opt_{j}", rng.sample(range(n), rng.randint(1, n)), rng.choice(["lr", "lr", "lr_x"])] for j in range(rng.randint(0, 2))]
+        out.append({"n": n, "groups": groups, "opts": opts, "hps": rng.choice([[], ["lr"], ["lr", "batch_size"], ["ghost"]]), "tag": "random"})
+    return out
+
+
+def reg_line(d: dict) -> tuple:
+    """the registry-as-data as a `coh regcheck` line of the Lean driver (names numbered in order of first appearance)"""
+    ids: dict = {}
+
+    def n(x):
+        return str(ids.setdefault(x, len(ids)))
+    gs = [f"{n(g[0])}:{'N' if g[1] is None else (','.join(n(x) for x in g[1]) or '-')}:{int(g[2])}" for g in d["groups"]]
+    os_ = [f"{n(o[0])}:{','.join(n(x) for x in o[1]) or '-'}:{n(o[2])}" for o in d["opts"]]
+    parts = [gs, os_, [n(x) for x in d["evolvable"]], [n(x) for x in d["hps"]], [n(x) for x in d["attrs"]]]
+    return "coh regcheck " + " ; ".join(" ".join(p) for p in parts), {v: k for k, v in ids.items()}
+
+
+def check_registry(spec: dict, problems: list, driver=None) -> str:
+    verdict, msg, d, live = reg_build(spec)
+    err, registered, pol = reg_model(d)
+    if driver is None:
+        import common
+        driver = common.Driver()
+    line, names = reg_line(d)
+    ans = driver.run(["reset", line])[1]
+    want = (f"{err or 'accepted'} policy={'None' if pol is None else [k for k, v in names.items() if v == pol][0]} "
+            f"registered={','.join(str(k) for x in registered for k, v in names.items() if v == x)}")
+    if ans != want:
+        problems.append(f"Lean model Coherence.registryCheck answers {ans!r} to {line!r}, harness oracle {want!r}")
+    if (err is None) != (verdict == "accepted"):
+        problems.append(f"registry validation: the constructor answers {verdict!r} ({msg[:80]}) but Coherence.registryCheck answers {err} on {d}")
+    elif err is not None and REG_ERRORS[err] not in msg:
+        problems.append(f"registry validation: the model's first failing check is {err} but the constructor raised {msg[:100]!r}")
+    if live["policy"] != pol:
+        problems.append(f"registry.policy = {live['policy']!r}, model (first policy group) = {pol!r} on {d['groups']}")
+    if live["all_registered"] != sorted(set(registered)):
+        problems.append(f"registry.all_registered() = {live['all_registered']}, model = {sorted(set(registered))}")
+    if live["optimizer_networks"] != {o[0]: o[1] for o in d["opts"]}:
+        problems.append(f"registry.optimizer_networks = {live['optimizer_networks']}, registered = {d['opts']}")
+    if [o[0] for o in d["opts"]] != [o[0] for o in spec["opts"]] or [o[1] for o in d["opts"]] != [[f"net{k}" for k in o[1]] for o in spec["opts"]]:
+        problems.append(f"__setattr__ registered {d['opts']} for the assigned wrappers {spec['opts']}")
+    if verdict == "accepted":
+        # the property: what acceptance must give (C02_registry_accepted_sound)
+        if pol is None or not any(g[0] == pol and g[2] for g in d["groups"]):
+            problems.append(f"accepted registry without a policy evaluation network: {d['groups']}")
+        missing = [a for a in d["evolvable"] if a not in live["all_registered"]]
+        if missing:
+            problems.append(f"accepted registry, evolvable attributes {missing} in no group and no optimizer: mutations would leave them behind")
+    # the verdict does not depend on the order of registration (C02_registry_validation_order_invariant)
+    if len(spec["groups"]) > 1 or len(spec["opts"]) > 1:
+        v2 = reg_build(dict(spec, groups=spec["groups"][::-1], opts=spec["opts"][::-1]))[0]
+        if v2 != verdict:
+            problems.append(f"registry validation depends on the order of registration: {verdict!r} / reversed {v2!r}")
+    return verdict if err is None else err
+
+
+def registry_suite(chk: Check) -> None:
+    cases = diffs = 0
+    for spec in reg_specs(chk.rng, chk.tier != "thorough"):
+        problems: list = []
+        kind = check_registry(spec, problems, chk.driver)
+        chk.corr["model_lines"] += 1
+        cases += 1
+        chk.case(["registry", spec], nontrivial=True, tags=[f"registry-{kind}", f"registry-spec-{spec['tag']}"])
+        if problems:
+            diffs += 1
+            chk.violation(problems[0], {"kind": "registry", "spec": spec, "problems": problems[:6],
+                                        "script": "c02.check_registry(spec, problems:=[])",
+                                        "correspondence": "driver `coh regcheck` = Coherence.registryCheck / RegData.registered / RegData.policy = harness/c02.py reg_model",
+                                        "theorems": chk.gate["theorems"]})
+    chk.suite("registry-validation", cases, diffs)
+
+
 def pre_gate(chk: Check) -> None:
     """Regenerate lean/Gen/MutWireGen.lean from the source text of agilerl/hpo/mutation.py of the tree under test (before
     the Lean gate) and re-check `generated wiring = model wiring` (Proofs/MutWireGenEq.lean) and the theorems over the
@@ -1721,8 +1903,10 @@ def pre_gate(chk: Check) -> None:
     import common
     import py2lean_mutwire
     import py2lean_optwrap
-    # Props.C02 imports BOTH generated files: write both from the tree under test before either gate builds it
-    for tr, rel in ((py2lean_mutwire, "Gen/MutWireGen.lean"), (py2lean_optwrap, "Gen/OptWrapGen.lean")):
+    import py2lean_registry
+    # Props.C02 imports ALL generated files: write them from the tree under test before any gate builds it
+    for tr, rel in ((py2lean_mutwire, "Gen/MutWireGen.lean"), (py2lean_optwrap, "Gen/OptWrapGen.lean"),
+                    (py2lean_registry, "Gen/RegistryGen.lean")):
         try:
             tr.write_if_changed(tr.translate(common.REPO)[0], common.LEAN_DIR / rel)
         except tr.Unsupported:
@@ -1735,6 +1919,10 @@ def pre_gate(chk: Check) -> None:
                             "the constructor of OptimizerWrapper: one optimizer / one group per network / one optimizer per sub-agent, "
                             "which parameters and which lr every group gets, the inference of network_names and lr_name by identity, "
                             "state_dict / load_state_dict")
+    common.translation_gate(chk, py2lean_registry, "Gen/RegistryGen.lean", ["Gen.RegistryGen", "Proofs.RegistryGenEq", "Props.C02"],
+                            "the mutation registry and its validation: MutationRegistry.all_registered / policy / optimizer_networks / "
+                            "register_* / __eq__, EvolvableAlgorithm._registry_init (which constructors raise) and the registration of "
+                            "an assigned OptimizerWrapper by __setattr__ (agilerl/algorithms/core/registry.py + base.py)")
 
 
 def run(chk: Check) -> None:
@@ -1770,6 +1958,7 @@ def run(chk: Check) -> None:
             report(chk, case, res)
     chk.suite("mutation-histories", len(cases), ndiff)
     wrapper_suite(chk)
+    registry_suite(chk)
     if chk.tier == "thorough":
         selftest(chk)
         selftest_wrapper(chk)
